@@ -250,7 +250,7 @@ PROPS = {
                       "event, the result is the validation error with failure reason Internal, last-contact and the apps' cohort/user-counting data shown to the policy afterwards "
                       "are unchanged; as an event report the lost event is recorded before anything else; as a ping no last-contact announcement follows.  Poll-interval inertness is "
                       "C07's monitor.  The model is tied to the code by trace equality on scripted runs with the REAL StandardCupv2Handler and harness-signed/forged ETags "
-                      "(unsigned, bad signature, other key, body tampered after signing, replay of an earlier genuine response); the monitor runs on every implementation trace.  Second theorem C02_forged_response_changes_no_protocol_state: the executable monitor step2b (no protocol-state change is announced between a response that fails authentication and the next schedule announcement) accepts every model trace; it also runs on every implementation trace.  'Counted as one failed check' and 'last-contact time untouched' are the rules of C08's proved monitor step8 (C08_bookkeeping_monitor_accepts_every_model_trace), which this check also runs on every implementation trace.",
+                      "(unsigned, bad signature, other key, body tampered after signing, replay of an earlier genuine response); the monitor runs on every implementation trace.  Third theorem C02_what_an_unauthenticated_response_says_changes_nothing (two-run statement, relational Hoare logic, Proofs/C02Rel.v): with a CUP handler, for every script, changing in any responses that fail authentication what they say (status, X-Retry-After, body) leaves the run the same action for action - requests and their bytes, events, policy questions and the state shown, installer calls, storage operations, metrics, timers, replies - except for the outcome each request records.  Second theorem C02_forged_response_changes_no_protocol_state: the executable monitor step2b (no protocol-state change is announced between a response that fails authentication and the next schedule announcement) accepts every model trace; it also runs on every implementation trace.  'Counted as one failed check' and 'last-contact time untouched' are the rules of C08's proved monitor step8 (C08_bookkeeping_monitor_accepts_every_model_trace), which this check also runs on every implementation trace.",
         "level_note": "Proved for the model (the model takes the verifier's verdict as an input bit per response; the harness produces that verdict with real keys).  "
                       "'Changes nothing else' for event reports and pings is covered by trace equality with the model, in which a forged response and a transport error differ only in the error kind.",
         "diff_meaning": "The authentication monitor rejects the implementation's trace (code 2), or the projection (everything except timers and replies) differs from the model's.",
